@@ -1213,7 +1213,7 @@ def c13_q2(ctx):
         yield ok("C13-Q2", "finalize_receive:loop", at(f, pt["span"]["line"]), {"iterator": "meta.filestore_requests", "next_sites": sorted(n["line"] for n in nexts.values()), "is_fail_branches": sorted(fail_sw), "push_blocks": sorted(pushes)})
 
 
-@rule("C13", "C13-Q3", 4, "the responses given to the receiving user, put in the Finished PDU and handed to the sending user have the same origin")
+@rule("C13", "C13-Q3", 4, "the responses given to the receiving user, put in the Finished PDU and handed to the sending user have the same origin; outside the cancel routine the Finished PDU is built only right after finalisation", also=("C04",))
 def c13_q3(ctx):
     rfns = impl_and_closures(ctx, RECV)
     sfns = impl_and_closures(ctx, SEND)
@@ -1556,3 +1556,4 @@ def c01_r3(ctx):
         yield bad("C01-R3", "store_file_data:unrecorded-return", at(f), sorted(set(problems))[0])
     else:
         yield ok("C01-R3", "store_file_data:unrecorded-return", at(f), "%d return(s) without merge(), all behind the empty-payload test" % len(rets))
+
